@@ -45,6 +45,8 @@ func newVectorizedTable(a vectorAccumulator) *vectorTable {
 }
 
 func (t *vectorTable) aggregate(_ float64, vector model.StepVector) {
+	// An empty output vector is stamped with its own step, too.
+	t.timestamp = vector.T
 	if len(vector.SampleIDs) == 0 {
 		t.hasValue = false
 		return
